@@ -53,6 +53,8 @@ var wallPrograms = []string{
 	"(do (future (tick 0)) (spin 0))",
 	"(do (def tf (future (tick 0))) (sleep 100000))",
 	"(try (do (future (tick 0)) (sleep 100000)) (catch e (spin 0)))",
+	// swap! whose update function is a BUILTIN that calls back into lisp code reading the swapped atom: returns, then the loop
+	"(let [st (atom {:hits 0 :log [1 2]})] (do (swap! st update :hits (fn [h] (+ h (count (get (deref st) :log))))) (swap! st update-in [:hits] (fn [h] (+ h (get (deref st) :hits)))) (spin 0)))",
 	// MANY live try / finally (and rethrowing catch) frames when the context ends: each cleanup body starts with a poll and
 	// gives up at once — no per-frame grace can add up to seconds
 	"(walk 120)",
